@@ -30,3 +30,6 @@ typedef struct OptSasl2Feature { bool has; Sasl2StreamFeature v; } OptSasl2Featu
 static inline const Sasl2StreamFeature *OptSasl2Feature_value(const OptSasl2Feature *o) { MODEL_LIMIT(o->has, "std::optional::value() on an empty optional (throws)"); return &o->v; }
 typedef struct OptNonza { bool has; } OptNonza;                                          /* std::optional<empty nonza struct> */
 typedef struct ConnectionError { int streamError; } ConnectionError;                     /* std::variant<...>: only StreamError is constructed here */
+typedef struct StreamErrorElement { int opaque; } StreamErrorElement;
+typedef struct StreamErrorResult { bool is_element; StreamErrorElement v; } StreamErrorResult;                 /* std::variant<StreamErrorElement, QXmppError> */
+static inline StreamErrorElement *StreamErrorResult_get_if_element(StreamErrorResult *r) { return r->is_element ? &r->v : NULL; }   /* std::get_if<StreamErrorElement> */
